@@ -28,8 +28,12 @@ class C16(Pipeline):
     mc = [("TokenFactory_mc", "TokenFactory_mc", ("quick", "thorough")),
           ("TokenFactory_mc", "TokenFactory_mc_full", ("thorough",)),
           ("TokenFactory_mc", "TokenFactory_mc_deep", ("thorough",))]
+    # cover mode comes in two shapes (TokenFactoryGen.Tails): per distinct state, the way there followed by every attempt
+    # the model rejects in that state; and per distinct (accepted attempt, state), the accepted paths up to the depth bound
     gens = [Gen("TokenFactoryGen", "TokenFactoryGen_cover", "bfs", tiers=("quick",), timeout=300),
             Gen("TokenFactoryGen", "TokenFactoryGen_cover_big", "bfs", tiers=("thorough",), timeout=1200),
+            Gen("TokenFactoryGen", "TokenFactoryGen_paths_cover", "bfs", tiers=("quick",), timeout=300),
+            Gen("TokenFactoryGen", "TokenFactoryGen_paths_cover_big", "bfs", tiers=("thorough",), timeout=1200),
             # hostile sub-denomination strings ('..', './', '//', trailing '/', empty), genesis without native metadata
             Gen("TokenFactoryGen", "TokenFactoryGen_subs_cover", "bfs", tiers=("quick",), timeout=300),
             Gen("TokenFactoryGen", "TokenFactoryGen_subs_cover_big", "bfs", tiers=("thorough",), timeout=1200),
@@ -122,7 +126,7 @@ class C16(Pipeline):
             if n_ok == 0 or n_fail == 0:
                 raise vk.Broken("vacuous drive: %s succeeded %d times, failed %d times" % (a, n_ok, n_fail))
 
-    validate_chunks = 4       # parallel TLC trace validations (histories are independent)
+    validate_chunks = 6       # parallel TLC trace validations (histories are independent)
 
     def _validate_all(self, events):
         """Trace validation split by history into parallel TLC runs; results merged (indices re-based)."""
